@@ -5,6 +5,7 @@ package main
 import (
 	"fmt"
 	"go/constant"
+	"go/token"
 	"go/types"
 	"reflect"
 	"regexp"
@@ -843,4 +844,130 @@ func (c *Ctx) exactIntReader(g *ssa.Function) bool {
 		}
 	}
 	return nRet > 0
+}
+
+// JSON-ATTR (C12): the encoder writes the node's own boost power and fuzzy distance.
+func ruleJSONATTR(c *Ctx, r *Report) {
+	const rule = "JSON-ATTR"
+	r.doc(rule, "in MarshalJSON every value stored into a pointer-typed numeric member of the wire struct (the boost power, the fuzzy distance) is the address of the receiver's own attribute field, or of a local that holds an unmodified copy of it: the number is encoded as it is, not rounded, clamped or recomputed — the decoder reads back exactly what was written")
+	enc := c.method(pkgExpr, "Expression", "MarshalJSON")
+	if enc == nil {
+		r.bad(rule, "anchor", "-", "MarshalJSON not found")
+		return
+	}
+	n := 0
+	for _, b := range enc.Blocks {
+		for _, in := range b.Instrs {
+			st, ok := in.(*ssa.Store)
+			if !ok {
+				continue
+			}
+			fa, ok := st.Addr.(*ssa.FieldAddr)
+			if !ok {
+				continue
+			}
+			pt, isPtr := st.Val.Type().Underlying().(*types.Pointer)
+			if !isPtr {
+				continue
+			}
+			bt, isBasic := pt.Elem().Underlying().(*types.Basic)
+			if !isBasic || bt.Info()&types.IsNumeric == 0 {
+				continue
+			}
+			n++
+			member := fieldName(fa.X.Type(), fa.Field)
+			key := fnName(enc) + "|" + member
+			own := func(v ssa.Value) bool {
+				f, isF := v.(*ssa.FieldAddr)
+				if !isF {
+					return false
+				}
+				base := f.X
+				if al, isAl := base.(*ssa.Alloc); isAl {
+					// the spilled receiver
+					for _, ref := range *al.Referrers() {
+						if s2, isSt := ref.(*ssa.Store); isSt && s2.Addr == ssa.Value(al) {
+							_, isParam := s2.Val.(*ssa.Parameter)
+							return isParam
+						}
+					}
+				}
+				_, isParam := base.(*ssa.Parameter)
+				return isParam
+			}
+			v := st.Val
+			good := own(v)
+			if al, isAl := v.(*ssa.Alloc); isAl && !good {
+				// &local, where local = e.attr unchanged
+				for _, ref := range *al.Referrers() {
+					if s2, isSt := ref.(*ssa.Store); isSt && s2.Addr == ssa.Value(al) {
+						if ld, isLd := s2.Val.(*ssa.UnOp); isLd && ld.Op == token.MUL && own(ld.X) {
+							good = true
+						} else {
+							good = false
+							break
+						}
+					}
+				}
+			}
+			if call, isCall := v.(*ssa.Call); isCall && !good {
+				// a helper that yields nil or (the address of) the value it was given: unlessDefault(e.attr, 1)
+				if g := call.Call.StaticCallee(); g != nil && inModule(g) && len(g.Blocks) > 0 {
+					for ai, a := range call.Call.Args {
+						isOwn := own(a)
+						if ld, isLd := a.(*ssa.UnOp); isLd && ld.Op == token.MUL && own(ld.X) {
+							isOwn = true
+						}
+						if !isOwn || ai >= len(g.Params) {
+							continue
+						}
+						prm := g.Params[ai]
+						all := true
+						for _, gb := range g.Blocks {
+							ret, isRet := gb.Instrs[len(gb.Instrs)-1].(*ssa.Return)
+							if !isRet || len(ret.Results) == 0 {
+								continue
+							}
+							rv := ret.Results[0]
+							switch x := rv.(type) {
+							case *ssa.Const:
+								if !x.IsNil() {
+									all = false
+								}
+							case *ssa.Parameter:
+								if x != prm {
+									all = false
+								}
+							case *ssa.Alloc:
+								// &param (the spilled copy), never written again
+								stores := 0
+								for _, ref := range *x.Referrers() {
+									if s2, isSt := ref.(*ssa.Store); isSt && s2.Addr == ssa.Value(x) {
+										stores++
+										if s2.Val != ssa.Value(prm) {
+											all = false
+										}
+									}
+								}
+								if stores != 1 {
+									all = false
+								}
+							default:
+								all = false
+							}
+						}
+						if all {
+							good = true
+						}
+					}
+				}
+			}
+			if good {
+				r.ok(rule, key, c.instrPos(in), "the node's own attribute")
+			} else {
+				r.bad(rule, key, c.instrPos(in), fmt.Sprintf("the encoder writes %s into the member %s instead of the node's own attribute: the number in the document is not the number in the tree (rounded, clamped or recomputed), so the decoded tree differs from the encoded one", c.key(v, nil), member))
+			}
+		}
+	}
+	r.floor(rule, "numeric attribute members written by the encoder", n, 2)
 }
